@@ -17,7 +17,9 @@ TableEv == Rec[1]
 Pairs == TableEv.pairs
 
 Accept(e) ==
-  CASE e.ev = "table" -> e.scanned = 1112064 /\ ObservedOk(e.pairs)
+  CASE e.ev = "table" -> /\ e.scanned = 1112064 /\ ObservedOk(e.pairs)
+                         \* only the characters of the (KyTea-compatible) table change, each to its table image
+                         /\ {<<e.pairs[i].c, e.pairs[i].out>> : i \in 1..Len(e.pairs)} = {<<Table[i][1], <<Table[i][2]>>>> : i \in 1..Len(Table)}
     [] e.ev = "str" -> /\ Len(e.out) = Len(e.s)
                        /\ \A i \in 1..Len(e.s) : e.out[i] = ObservedMap(Pairs, e.s[i])
                        /\ e.out2 = e.out
